@@ -115,6 +115,26 @@ pub fn decode(raw : &mut Raw, ntargets : usize, clock : Clock, truthful_history 
         s.content = k as u8;    // I1
         cache[k] = s;
     });
+    if clock == Clock::Distinct
+    {
+        /*  W (the properties' own assumption): two distinct writes never share
+            an mtime, so two files anywhere with equal mtimes are copies of one
+            write: equal content.  (Cache slots hold pairwise different
+            contents, hence pairwise different mtimes.) */
+        unroll3!(i, {
+            unroll3!(j, {
+                if i < j && ws[i].present && ws[j].present && ws[i].mtime == ws[j].mtime { vassume(ws[i].content == ws[j].content); }
+            });
+            unroll5!(k, {
+                if ws[i].present && cache[k].present && ws[i].mtime == cache[k].mtime { vassume(ws[i].content == cache[k].content); }
+            });
+        });
+        unroll5!(k, {
+            unroll5!(l, {
+                if k < l && cache[k].present && cache[l].present { vassume(cache[k].mtime != cache[l].mtime); }
+            });
+        });
+    }
     let mut table = [TableD { known : false, content : 0, mtime : 0, exec : false }; 2];
     let mut t = 0;
     while t < ntargets
